@@ -1035,8 +1035,37 @@ impl Running {
         (eng_lines, eview, pending)
     }
 
+    /// identity (kind, instrument, client order id) of every RESPONSE event (order snapshot answering
+    /// an open request, order-cancelled answering a cancel request) the engine had processed at the
+    /// last observation, as a sorted multiset: what "one response per request, at most once" is about
+    fn resp_line(&self) -> String {
+        let shared = self.shared.lock().unwrap();
+        let mut ids: Vec<String> = shared.log[..self.printed.min(shared.log.len())]
+            .iter()
+            .filter_map(|e| match e {
+                EngineEvent::Account(AccountStreamEvent::Item(a)) => match &a.kind {
+                    AccountEventKind::OrderSnapshot(o) => Some(format!(
+                        "open:{}:{}",
+                        self.labels.ins_label(o.0.key.instrument.0),
+                        canon_cid(&self.labels, &o.0.key.cid.0)
+                    )),
+                    AccountEventKind::OrderCancelled(c) => Some(format!(
+                        "cancel:{}:{}",
+                        self.labels.ins_label(c.key.instrument.0),
+                        canon_cid(&self.labels, &c.key.cid.0)
+                    )),
+                    _ => None,
+                },
+                _ => None,
+            })
+            .collect();
+        ids.sort();
+        format!("resp {}", ids.join(" "))
+    }
+
     /// second half: both views, the constrained keys, and whether the views agree
     fn view_lines(&self, eng_lines: Vec<String>, eview: &EngineView, xview: &ExchView, lines: &mut Vec<String>) {
+        lines.push(self.resp_line());
         lines.extend(eng_lines);
         lines.extend(exch_lines(self.cfg.k, xview));
         lines.extend(key_lines("hnet", "hbal", eview));
